@@ -14,6 +14,8 @@ CH = lambda t: t._Task__children
 PRE = lambda t: t._Task__predecessors
 SUC = lambda t: t._Task__successors
 OWN = lambda t: t._Task__wbs
+import sys as _sys
+EMPTY_ID = _sys.maxsize
 
 
 def snapshot(allt):
@@ -128,7 +130,7 @@ def tolist(v):
     return [x for x in v if x is not None]
 
 
-def make_op(rng, tasks, wbss, facades, mode='mixed'):
+def make_op(rng, tasks, wbss, facades, mode='mixed', former=None):
     t = rng.choice(tasks); u = rng.choice(tasks); v = rng.choice(tasks); w = rng.choice(wbss)
     some = lambda: rng.sample(tasks, rng.randint(0, min(3, len(tasks))))
     dup = lambda: [rng.choice(tasks) for _ in range(rng.randint(0, 3))]
@@ -172,6 +174,21 @@ def make_op(rng, tasks, wbss, facades, mode='mixed'):
         Op(f'{owner_name(w)}.remove_all(id={u.id!r})', lambda: w.remove_all(id=u.id), [], ('wbs-remove-all', w, u.id)),
         Op(f'{tn(t)}.children.remove_all(id={u.id!r})', lambda: t.children.remove_all(id=u.id), [t], ('list-remove-all', t, u.id)),
     ]
+    # targeted operations: re-use of earlier state (former parents), promotion of a grandchild while its parent is dropped
+    if former:
+        ft = rng.choice(list(former)); t2 = next(x for x in tasks if id(x) == ft); fp = former[ft]
+        if isinstance(fp, Task):
+            cand.append(Op(f'{tn(t2)}.parent = {tn(fp)}  [its former parent]', lambda: setattr(t2, 'parent', fp), [t2, fp], ('set-parent', t2, fp)))
+            cand.append(Op(f'{tn(fp)}.children.append({tn(t2)})  [its former child]', lambda: fp.children.append(t2), [fp, t2], ('append-child', fp, t2)))
+    for owner in [t, w]:
+        kids = list(R(owner)._Task__children)
+        withkids = [k for k in kids if k._Task__children]
+        if withkids:
+            pch = rng.choice(withkids); gc = rng.choice(list(pch._Task__children))
+            L2 = [k for k in kids if k is not pch] + [gc]
+            rng.shuffle(L2)
+            setter2 = (lambda val, o=owner: setattr(o, 'roots', val)) if isinstance(owner, WBS) else (lambda val, o=owner: setattr(o, 'children', val))
+            cand.append(Op(f'{owner_name(owner)}.{"roots" if isinstance(owner, WBS) else "children"} = {tn(L2)}  [drops {tn(pch)}, promotes its child]', lambda L2=L2, f=setter2: f(L2), [R(owner)] + L2, ('assign-children', R(owner), L2)))
     ckw = {}
     if rng.random() < .6: ckw['parent'] = u
     if rng.random() < .4: ckw['children'] = L
@@ -181,12 +198,17 @@ def make_op(rng, tasks, wbss, facades, mode='mixed'):
     if facades:
         k = rng.randrange(len(facades)); f, owner = facades[k]
         fo = f'facade{k}(of {owner_name(owner)})'
+        members = list(f)
+        fu, fv = u, v
+        if len(members) >= 2 and rng.random() < .7:
+            fu, fv = rng.sample(members, 2)                     # a move that the (possibly stale) facade considers valid
         cand += [
-            Op(f'{fo}.move({tn(u)}, before={tn(v)})', lambda: f.move(u, before=v), [R(owner), u, v], ('move-child', R(owner), u, {'before': v})),
-            Op(f'{fo}.append({tn(u)})', lambda: f.append(u), [R(owner), u], ('append-child', R(owner), u)),
-            Op(f'{fo}.remove({tn(u)})', lambda: f.remove(u), [R(owner), u], ('remove-child', R(owner), u)),
+            Op(f'{fo}.move({tn(fu)}, before={tn(fv)})', lambda: f.move(fu, before=fv), [R(owner), fu, fv], ('move-child', R(owner), fu, {'before': fv})),
+            Op(f'{fo}.move({tn(fu)}, after={tn(fv)})', lambda: f.move(fu, after=fv), [R(owner), fu, fv], ('move-child', R(owner), fu, {'after': fv})),
+            Op(f'{fo}.append({tn(fu)})', lambda: f.append(fu), [R(owner), fu], ('append-child', R(owner), fu)),
+            Op(f'{fo}.remove({tn(fu)})', lambda: f.remove(fu), [R(owner), fu], ('remove-child', R(owner), fu)),
             Op(f'{fo}.sort("id")', lambda: f.sort('id'), [R(owner)], ('sort', R(owner), False)),
-            Op(f'{fo}.insert({i}, {tn(u)})', lambda: f.insert(i, u), [R(owner), u], ('insert-child', R(owner), i, u)),
+            Op(f'{fo}.insert({i}, {tn(fu)})', lambda: f.insert(i, fu), [R(owner), fu], ('insert-child', R(owner), i, fu)),
         ]
     if mode == 'links':
         cand = [o for o in cand if o.effect[0] in ('assign-links', 'append-link', 'remove-link')]
@@ -355,15 +377,18 @@ def walk(seed, index, props, steps=12, n=None, verbose=False):
     mode = rng.choice(['mixed', 'mixed', 'links', 'hierarchy'])
     if mode == 'links':
         steps = 16; tasks = [Task(i + 1, f't{i}') for i in range(n)]          # distinct ids, dependency edits only (incl. reading the closures)
+    elif mode == 'hierarchy' and rng.random() < .5:
+        steps = 14; tasks = [Task(i + 1, f't{i}') for i in range(n)]
     else:
         tasks = [Task(rng.randint(1, max(2, n - 1)), f't{i}') for i in range(n)]
+    former = {}
     wbss = [WBS(), WBS()]
     roots = [w._root() for w in wbss]
     allt = tasks + roots
     facades = []; hist = []; viol = []; tags = set()
     desc = {'tasks': [f't{i}=Task({t.id})' for i, t in enumerate(tasks)], 'history': hist}
     for st in range(steps):
-        op = make_op(rng, tasks, wbss, facades, mode)
+        op = make_op(rng, tasks, wbss, facades, mode, former)
         before = snapshot(allt)
         ret = None
         try:
@@ -388,6 +413,10 @@ def walk(seed, index, props, steps=12, n=None, verbose=False):
             for t in allt:
                 if id(t) not in before: before[id(t)] = (None, [], [], [], None)        # did not exist before the call
         after = snapshot(allt)
+        for t in tasks:
+            b0 = before.get(id(t)); a0 = after.get(id(t))
+            if b0 is not None and a0 is not None and b0[0] is not a0[0] and isinstance(b0[0], Task) and b0[0].id != EMPTY_ID:
+                former[id(t)] = b0[0]
         found = []
         if outcome != 'ok' and not snap_eq(before, after):
             found.append(('C15 a rejected call changed the graph', f'{op.name} ({outcome})'))
